@@ -72,6 +72,26 @@ pub mod blocks {
         }
     }
 
+    /// Two-Way with a needle of exactly NLEN bytes, haystack 0..=HMAX.
+    pub fn twoway_n<const NLEN: usize, const HMAX: usize>(rev: bool) {
+        let nb: [u8; NLEN] = kani::any();
+        let n = place(&nb[..]);
+        let (hb, hlen) = sym_hay::<HMAX>(0, HMAX);
+        let h = place(&hb.0[..hlen]);
+        if rev {
+            let r = twoway::FinderRev::new(n).rfind(h, n);
+            check_rightmost(h, n, r);
+            kani::cover!(r.is_none() && hlen == HMAX, "no occurrence at max length");
+            kani::cover!(matches!(r, Some(i) if i > 0 && i + NLEN < hlen), "occurrence strictly inside");
+        } else {
+            let r = twoway::Finder::new(n).find(h, n);
+            check_leftmost(h, n, r);
+            kani::cover!(r.is_none() && hlen == HMAX, "no occurrence at max length");
+            kani::cover!(matches!(r, Some(i) if i > 0 && i + NLEN < hlen), "occurrence strictly inside");
+        }
+        kani::cover!(n[0] == n[2] && n[1] == n[3] && n[0] != n[1], "period-2 needle");
+    }
+
     /// Two-Way over a small alphabet with concrete lengths (deeper bound).
     pub fn twoway_alpha<const NLEN: usize, const HLEN: usize>(rev: bool) {
         let mut nb: [u8; NLEN] = kani::any();
@@ -168,11 +188,13 @@ pub mod blocks {
     }
 }
 
-inst!(b_twoway_fwd_3_7, [props=C12 xprops=C05+C14 tier=quick cfg=x86std+generic t=1500 role=twoway-fwd uw=Suffix:8;ApproximateByteSet:5;is_equal_raw:3;_imp.0:9;_imp.1:5;_imp.2:5;oracle:5], 4, blocks::twoway::<3, 7>(false, 1));
-inst!(b_twoway_rev_3_7, [props=C12 xprops=C05+C14 tier=quick cfg=x86std+generic t=1500 role=twoway-rev uw=Suffix:8;ApproximateByteSet:5;is_equal_raw:3;_imp.0:9;_imp.1:5;_imp.2:5;oracle:5], 4, blocks::twoway::<3, 7>(true, 1));
-inst!(b_twoway_fwd_4_8, [props=C12 xprops=C05+C14 tier=thorough cfg=x86std t=3600 role=twoway-fwd uw=Suffix:10;ApproximateByteSet:6;is_equal_raw:3;_imp.0:10;_imp.1:6;_imp.2:6;oracle:6], 4, blocks::twoway::<4, 8>(false, 4));
-inst!(b_twoway_rev_4_8, [props=C12 xprops=C05+C14 tier=thorough cfg=x86std t=5400 role=twoway-rev uw=Suffix:10;ApproximateByteSet:6;is_equal_raw:3;_imp.0:10;_imp.1:6;_imp.2:6;oracle:6], 4, blocks::twoway::<4, 8>(true, 4));
-inst!(b_twoway_fwd_5_10, [props=C12 xprops=C05+C14 tier=thorough cfg=x86std t=7200 role=twoway-fwd uw=Suffix:12;ApproximateByteSet:7;is_equal_raw:3;_imp.0:12;_imp.1:7;_imp.2:7;oracle:7], 4, blocks::twoway::<5, 10>(false, 5));
+inst!(b_twoway_fwd_3_8, [props=C12 xprops=C05+C14 tier=quick cfg=x86std+generic t=1500 role=twoway-fwd uw=@TW:3:8;oracle:5], 4, blocks::twoway::<3, 8>(false, 1));
+inst!(b_twoway_rev_3_8, [props=C12 xprops=C05+C14 tier=quick cfg=x86std+generic t=1500 role=twoway-rev uw=@TW:3:8;oracle:5], 4, blocks::twoway::<3, 8>(true, 1));
+inst!(b_twoway_fwd_n4_8, [props=C12 xprops=C05+C14 tier=quick cfg=x86std t=1800 role=twoway-fwd uw=@TW:4:8;oracle:6], 4, blocks::twoway_n::<4, 8>(false));
+inst!(b_twoway_rev_n4_8, [props=C12 xprops=C05+C14 tier=quick cfg=x86std t=1800 role=twoway-rev uw=@TW:4:8;oracle:6], 4, blocks::twoway_n::<4, 8>(true));
+inst!(b_twoway_fwd_4_8, [props=C12 xprops=C05+C14 tier=thorough cfg=x86std t=3600 role=twoway-fwd uw=@TW:4:8;oracle:6], 4, blocks::twoway::<4, 8>(false, 4));
+inst!(b_twoway_rev_4_8, [props=C12 xprops=C05+C14 tier=thorough cfg=x86std t=5400 role=twoway-rev uw=@TW:4:8;oracle:6], 4, blocks::twoway::<4, 8>(true, 4));
+inst!(b_twoway_fwd_5_10, [props=C12 xprops=C05+C14 tier=thorough cfg=x86std t=7200 role=twoway-fwd uw=@TW:5:10;oracle:7], 4, blocks::twoway::<5, 10>(false, 5));
 inst!(b_twoway_fwd_alpha_6_12, [props=C12 xprops=C14 tier=thorough cfg=x86std t=7200 role=twoway-fwd-small-alphabet], 14, blocks::twoway_alpha::<6, 12>(false));
 inst!(b_twoway_rev_alpha_6_12, [props=C12 xprops=C14 tier=thorough cfg=x86std t=7200 role=twoway-rev-small-alphabet], 14, blocks::twoway_alpha::<6, 12>(true));
 inst!(b_rk_fwd_4_10, [props=C12+C05 xprops=C14 tier=quick cfg=x86std+generic t=1500 role=rabinkarp-fwd uw=is_equal_raw:3;Hash:6;rabinkarp::Finder::new:6;rabinkarp::FinderRev::new:6;find_raw:12;rfind_raw:12;oracle:6], 4, blocks::rabinkarp::<4, 10>(false, 0));
@@ -228,7 +250,7 @@ pub mod packed {
 
     /// Generic packed-pair at N lanes: needle of NLEN bytes, symbolic pair,
     /// haystack min_haystack_len ..= min_haystack_len + extra.
-    pub fn generic<const N: usize, const NLEN: usize, const HCAP: usize>(prefilter: bool, extra: usize) {
+    pub fn generic<const N: usize, const NLEN: usize, const HCAP: usize>(prefilter: bool) {
         let nb: [u8; NLEN] = kani::any();
         let n = &nb[..];
         let (i1, i2): (u8, u8) = (kani::any(), kani::any());
@@ -238,24 +260,27 @@ pub mod packed {
         };
         let f = memchr::verif::SmallPacked::<N>::new(n, pair);
         let minlen = f.min_haystack_len();
+        // hlen ranges up to HCAP: at hlen == HCAP the slice ends exactly at the
+        // end of its object, so any over-read (also by the scalar needle
+        // comparison) leaves the object.
         let (hb, hlen) = sym_hay::<HCAP>(0, HCAP);
-        kani::assume(hlen >= minlen && hlen <= minlen + extra);
+        kani::assume(hlen >= minlen);
         let h = &hb.0[..hlen];
         unsafe { memchr::verif::set_region(h.as_ptr(), hlen) };
         if prefilter {
             let r = f.find_prefilter(h);
             unsafe { memchr::verif::clear_region() };
             check_prefilter_contract(h, n, i1 as usize, i2 as usize, r, true);
-            kani::cover!(r.is_none() && hlen == minlen + extra, "no candidate at max length");
+            kani::cover!(r.is_none() && hlen == HCAP, "no candidate at max length");
             kani::cover!(matches!(r, Some(c) if c + NLEN == hlen) && i1 > i2, "candidate at the very end, index1 > index2");
-            kani::cover!(matches!(r, Some(c) if c >= N) && hlen == minlen + extra, "candidate beyond the first chunk");
+            kani::cover!(matches!(r, Some(c) if c >= N) && hlen == HCAP, "candidate beyond the first chunk");
         } else {
             let r = f.find(h, n);
             unsafe { memchr::verif::clear_region() };
             check_leftmost(h, n, r);
-            kani::cover!(r.is_none() && hlen == minlen + extra, "no occurrence at max length");
+            kani::cover!(r.is_none() && hlen == HCAP, "no occurrence at max length");
             kani::cover!(matches!(r, Some(c) if c + NLEN == hlen) && i1 > i2, "occurrence at the very end, index1 > index2");
-            kani::cover!(matches!(r, Some(c) if c >= N) && hlen == minlen + extra, "occurrence beyond the first chunk");
+            kani::cover!(matches!(r, Some(c) if c >= N) && hlen == HCAP, "occurrence beyond the first chunk");
         }
     }
 
@@ -315,16 +340,16 @@ pub mod packed {
     }
 }
 
-inst!(pp_g4_find_n2, [props=C12 xprops=C05+C14 tier=quick cfg=x86std t=1500 role=packedpair-generic-find], 8, packed::generic::<4, 2, 16>(false, 9));
-inst!(pp_g4_find_n3, [props=C12+C05+C14 tier=quick cfg=x86std t=1500 role=packedpair-generic-find], 8, packed::generic::<4, 3, 16>(false, 9));
-inst!(pp_g4_find_n5, [props=C12 xprops=C05+C14 tier=quick cfg=x86std t=1500 role=packedpair-generic-find], 8, packed::generic::<4, 5, 18>(false, 9));
-inst!(pp_g4_pre_n2, [props=C11 xprops=C05+C14 tier=quick cfg=x86std t=1500 role=packedpair-generic-prefilter], 8, packed::generic::<4, 2, 16>(true, 9));
-inst!(pp_g4_pre_n3, [props=C11+C05 xprops=C14 tier=quick cfg=x86std t=1500 role=packedpair-generic-prefilter], 8, packed::generic::<4, 3, 16>(true, 9));
-inst!(pp_g4_pre_n5, [props=C11 xprops=C05+C14 tier=quick cfg=x86std t=1500 role=packedpair-generic-prefilter], 8, packed::generic::<4, 5, 18>(true, 9));
-inst!(pp_g8_find_n4, [props=C12 xprops=C05+C14 tier=thorough cfg=x86std t=3600 role=packedpair-generic-find], 12, packed::generic::<8, 4, 30>(false, 17));
-inst!(pp_g8_pre_n4, [props=C11 xprops=C05+C14 tier=thorough cfg=x86std t=3600 role=packedpair-generic-prefilter], 12, packed::generic::<8, 4, 30>(true, 17));
-inst!(pp_g2_find_n3, [props=C12 xprops=C05+C14 tier=thorough cfg=x86std t=3600 role=packedpair-generic-find], 8, packed::generic::<2, 3, 12>(false, 7));
-inst!(pp_g2_pre_n3, [props=C11 xprops=C05+C14 tier=thorough cfg=x86std t=3600 role=packedpair-generic-prefilter], 8, packed::generic::<2, 3, 12>(true, 7));
+inst!(pp_g4_find_n2, [props=C12 xprops=C05+C14 tier=quick cfg=x86std t=1500 role=packedpair-generic-find], 8, packed::generic::<4, 2, 14>(false));
+inst!(pp_g4_find_n3, [props=C12+C05+C14 tier=quick cfg=x86std t=1500 role=packedpair-generic-find], 8, packed::generic::<4, 3, 15>(false));
+inst!(pp_g4_find_n5, [props=C12 xprops=C05+C14 tier=quick cfg=x86std t=1500 role=packedpair-generic-find], 8, packed::generic::<4, 5, 17>(false));
+inst!(pp_g4_pre_n2, [props=C11 xprops=C05+C14 tier=quick cfg=x86std t=1500 role=packedpair-generic-prefilter], 8, packed::generic::<4, 2, 14>(true));
+inst!(pp_g4_pre_n3, [props=C11+C05 xprops=C14 tier=quick cfg=x86std t=1500 role=packedpair-generic-prefilter], 8, packed::generic::<4, 3, 15>(true));
+inst!(pp_g4_pre_n5, [props=C11 xprops=C05+C14 tier=quick cfg=x86std t=1500 role=packedpair-generic-prefilter], 8, packed::generic::<4, 5, 17>(true));
+inst!(pp_g8_find_n4, [props=C12 xprops=C05+C14 tier=thorough cfg=x86std t=3600 role=packedpair-generic-find], 12, packed::generic::<8, 4, 28>(false));
+inst!(pp_g8_pre_n4, [props=C11 xprops=C05+C14 tier=thorough cfg=x86std t=3600 role=packedpair-generic-prefilter], 12, packed::generic::<8, 4, 28>(true));
+inst!(pp_g2_find_n3, [props=C12 xprops=C05+C14 tier=thorough cfg=x86std t=3600 role=packedpair-generic-find], 8, packed::generic::<2, 3, 11>(false));
+inst!(pp_g2_pre_n3, [props=C11 xprops=C05+C14 tier=thorough cfg=x86std t=3600 role=packedpair-generic-prefilter], 8, packed::generic::<2, 3, 11>(true));
 inst!(pp_portable_n3, [props=C11 xprops=C05+C14 tier=quick cfg=generic t=1500 role=packedpair-portable-prefilter uw=find_prefilter.0:10;find_raw.0:3;byte_by_byte:10;oracle:6], 4, packed::portable::<3, 9>(9));
 inst!(pp_portable_n2, [props=C11 xprops=C05+C14 tier=thorough cfg=generic t=1500 role=packedpair-portable-prefilter uw=find_prefilter.0:10;find_raw.0:3;byte_by_byte:10;oracle:6], 4, packed::portable::<2, 9>(9));
 inst!(pp_portable_n4, [props=C11 xprops=C05+C14 tier=thorough cfg=generic t=1500 role=packedpair-portable-prefilter uw=find_prefilter.0:10;find_raw.0:3;byte_by_byte:10;oracle:6], 4, packed::portable::<4, 9>(9));
@@ -411,7 +436,7 @@ inst!(m_finder_rev_n0, [props=C04+C14 tier=quick cfg=x86std t=900 role=finderrev
 // mode 1 = SSE2 only (packed-pair SSE2 route, Rabin-Karp below min_haystack_len)
 inst!(m_finder_n2_sse2, [props=C03+C05+C14 tier=quick cfg=x86std+x86none t=1800 role=finder-packed-sse2 uw=@RK;@TWNEW;@TWOFF;with_ranker:6;oracle:6;@PP], 3,
     meta::finder::<2, 20>(1, 0, 20));
-inst!(m_finder_n3_sse2, [props=C03 xprops=C05+C14 tier=quick cfg=x86std t=1800 role=finder-packed-sse2 uw=@RK;@TWNEW;@TWOFF;with_ranker:6;oracle:6;@PP], 3,
+inst!(m_finder_n3_sse2, [props=C03 xprops=C05+C14 tier=thorough cfg=x86std t=1800 role=finder-packed-sse2 uw=@RK;@TWNEW;@TWOFF;with_ranker:6;oracle:6;@PP], 3,
     meta::finder::<3, 20>(1, 0, 20));
 inst!(m_finder_n4_sse2_36, [props=C03 xprops=C05+C14 tier=thorough cfg=x86std t=3600 role=finder-packed-sse2 uw=@RK;@TWNEW;@TWOFF;with_ranker:6;oracle:6;@PP], 3,
     meta::finder::<4, 36>(1, 16, 36));
@@ -428,14 +453,14 @@ inst!(m_finder_rev_n1, [props=C04 xprops=C14 tier=quick cfg=x86std+generic t=180
     meta::finder_rev::<1, 20>(0, 20));
 inst!(m_finder_rev_n2_rk, [props=C04 xprops=C05+C14 tier=quick cfg=x86std+generic t=1800 role=finderrev-rabinkarp uw=@RK;@TWNEW;@TWOFF;with_ranker:6;oracle:6], 3,
     meta::finder_rev::<2, 15>(0, 15));
-inst!(m_finder_rev_n3_rk, [props=C04 xprops=C05+C14 tier=quick cfg=x86std t=1800 role=finderrev-rabinkarp uw=@RK;@TWNEW;@TWOFF;with_ranker:6;oracle:6], 3,
+inst!(m_finder_rev_n3_rk, [props=C04 xprops=C05+C14 tier=thorough cfg=x86std t=1800 role=finderrev-rabinkarp uw=@RK;@TWNEW;@TWOFF;with_ranker:6;oracle:6], 3,
     meta::finder_rev::<3, 15>(0, 15));
-inst!(m_finder_rev_n2_tw16, [props=C04 xprops=C05+C14 tier=quick cfg=x86std+generic t=1800 role=finderrev-twoway-routing uw=@RK;@TWNEW;_imp.0:19;_imp.1:4;_imp.2:4;oracle:6], 3,
+inst!(m_finder_rev_n2_tw16, [props=C04 xprops=C05+C14 tier=quick cfg=x86std+generic t=1800 role=finderrev-twoway-routing uw=@RK;@TW:2:17;oracle:6], 3,
     meta::finder_rev::<2, 17>(16, 17));
-inst!(m_finder_rev_n3_tw, [props=C04 xprops=C05+C14 tier=thorough cfg=x86std t=5400 role=finderrev-twoway-routing uw=@RK;@TWNEW;_imp.0:20;_imp.1:5;_imp.2:5;oracle:6], 3,
+inst!(m_finder_rev_n3_tw, [props=C04 xprops=C05+C14 tier=thorough cfg=x86std t=5400 role=finderrev-twoway-routing uw=@RK;@TW:3:18;oracle:6], 3,
     meta::finder_rev::<3, 18>(15, 18));
 // no SIMD available on x86 (mode 0): Two-Way + the portable prefilter
-inst!(m_finder_n2_nosimd_rk, [props=C03 xprops=C05+C14 tier=quick cfg=x86std+generic t=1800 role=finder-nosimd-rabinkarp uw=@RK;@TWNEW;@TWOFF;with_ranker:6;oracle:6;find_prefilter.0:2;@MEMCHR], 3,
-    meta::finder::<2, 15>(0, 0, 15));
-inst!(m_finder_n2_nosimd_tw, [props=C03 xprops=C05+C14 tier=thorough cfg=generic t=7200 role=finder-nosimd-twoway-prefilter uw=@RK;@TWNEW;_imp.0:19;_imp.1:4;_imp.2:4;with_ranker:6;oracle:6;find_prefilter.0:19;@MEMCHR], 3,
+inst!(m_finder_n2_nosimd_rk, [props=C03 xprops=C05+C14 tier=quick cfg=generic t=1800 role=finder-nosimd-rabinkarp uw=@RK;@TWNEW;@TWOFF;with_ranker:6;oracle:6;find_prefilter.0:2;@MEMCHR], 3,
+    meta::finder::<2, 12>(0, 0, 12));
+inst!(m_finder_n2_nosimd_tw, [props=C03 xprops=C05+C14 tier=thorough cfg=generic t=7200 role=finder-nosimd-twoway-prefilter uw=@RK;@TW:2:17;with_ranker:6;oracle:6;find_prefilter.0:19;@MEMCHR], 3,
     meta::finder::<2, 17>(0, 16, 17));
